@@ -69,7 +69,7 @@ def run_stats(evs):
             cur = {"seed": e["seed"], "profile": e["profile"], "events": 0}
             for k in ["commits", "handed", "leaders", "grants", "leader_commits", "appends", "released", "readies",
                       "reads_answered", "conf_applied", "stable_end", "appends_sent", "snap_installed", "prevotes",
-                      "timeout_now", "calls", "crashes", "restarts", "truncations", "panics", "drops", "dups",
+                      "timeout_now", "calls", "crashes", "restarts", "truncations", "panics", "drops", "dups", "bogus_rejected",
                       "async_adv", "snap_sent", "joint_entered"]:
                 cur[k] = 0
             runs[e["run"]] = cur
@@ -99,6 +99,8 @@ def run_stats(evs):
             cur["calls"] += 1
         if ev == "Deliver" and e["a"].get("keep"):
             cur["dups"] += 1
+        if ev == "Bogus" and e.get("rk") == "err":
+            cur["bogus_rejected"] += 1
         if ev == "AdvanceAsync":
             cur["async_adv"] += 1
         if ev in ("Ready", "Advance", "AdvanceAppend"):
